@@ -186,11 +186,17 @@ type mtarget struct {
 	a, b, aCalls, bCalls   reflect.Value
 	resetA, resetB, resetA2 reflect.Value // ResetACalls, ResetBCalls, ResetCalls
 	arity                  int
+	nilFuncs               bool // MFunc fields left nil: the mock is used as a pure call recorder (stub-impl)
 }
 
-func newM(name string, mk func() interface{}) *mtarget {
-	t := &mtarget{name: name, v: reflect.ValueOf(mk())}
+func newM(name string, mk func() interface{}) *mtarget { return newM2(name, mk, false) }
+
+func newM2(name string, mk func() interface{}, nilFuncs bool) *mtarget {
+	t := &mtarget{name: name, v: reflect.ValueOf(mk()), nilFuncs: nilFuncs}
 	for _, m := range []string{"A", "B"} {
+		if nilFuncs {
+			break
+		}
 		fld := t.v.Elem().FieldByName(m + "Func")
 		ft := fld.Type()
 		fld.Set(reflect.MakeFunc(ft, func(in []reflect.Value) []reflect.Value {
@@ -332,7 +338,7 @@ func (t *mtarget) stressRound(mode string, G, K int, withResets bool, kOffset in
 			}()
 			for k := kOffset; k < kOffset+K; k++ {
 				c := code(g, k)
-				if rc := t.call(t.a, c); t.a.Type().NumOut() > 0 && t.arity > 0 && rc != c {
+				if rc := t.call(t.a, c); t.a.Type().NumOut() > 0 && t.arity > 0 && rc != c && !t.nilFuncs {
 					fail(t.name, mode, "result", map[string]interface{}{"want": c, "got": rc})
 					return
 				}
@@ -348,13 +354,43 @@ func (t *mtarget) stressRound(mode string, G, K int, withResets bool, kOffset in
 	stat("calls", int64(G*K))
 }
 
+// recorder reports whether the mock accepts calls while its MFunc fields are nil (stub-impl): found by trying
+func (t *mtarget) recorder() (ok bool) {
+	defer func() {
+		if recover() != nil {
+			ok = false
+		}
+	}()
+	p := newM2(t.name, func() interface{} { return reflect.New(t.v.Elem().Type()).Interface() }, true)
+	p.call(p.a, code(1, 0))
+	p.call(p.b, code(1, 0))
+	return true
+}
+
 func (t *mtarget) stress(plan *Plan, rng *rand.Rand) {
+	t.stressWith(plan, rng, false)
+	if t.recorder() {
+		// the same rounds on a mock whose MFunc fields are nil: every call takes the "no function" path
+		t.stressWith(plan, rng, true)
+		stat("recorder_targets", 1)
+	}
+}
+
+func (t *mtarget) stressWith(plan *Plan, rng *rand.Rand, nilFuncs bool) {
 	G, K := plan.G, plan.K
+	fresh := func() *mtarget {
+		return newM2(t.name, func() interface{} { return reflect.New(t.v.Elem().Type()).Interface() }, nilFuncs)
+	}
+	pre := ""
+	if nilFuncs {
+		pre = "nil-func/"
+		K = K/2 + 1
+	}
 	hasResets := t.resetA.IsValid() && t.resetA2.IsValid() && t.resetB.IsValid()
 	for round := 0; round < plan.Rounds; round++ {
 		// fresh instance per round
-		t2 := newM(t.name, func() interface{} { return reflect.New(t.v.Elem().Type()).Interface() })
-		mode := "no-reset"
+		t2 := fresh()
+		mode := pre + "no-reset"
 		t2.stressRound(mode, G, K, false, 0, rng)
 		recs := t2.read(t2.aCalls)
 		if len(recs) != G*K {
@@ -363,8 +399,8 @@ func (t *mtarget) stress(plan *Plan, rng *rand.Rand) {
 			t2.checkLog(mode+"/final", recs)
 		}
 		if hasResets {
-			mode = "reset-then-quiet"
-			t3 := newM(t.name, func() interface{} { return reflect.New(t.v.Elem().Type()).Interface() })
+			mode = pre + "reset-then-quiet"
+			t3 := fresh()
 			t3.stressRound(mode+"/phase1", G, K, true, 0, rng)
 			t3.checkLog(mode+"/after-phase1", t3.read(t3.aCalls))
 			t3.stressRound(mode+"/phase2", G, K, false, K, rng) // no resets any more: nothing of phase 2 may be lost
@@ -564,34 +600,56 @@ func testifyStress(name string, mk func(t tT) interface{}, unroll bool, plan *Pl
 				call.Return(fn.Interface())
 			}
 		} else {
-			// the generated typed expecter API: EXPECT().A(...).RunAndReturn(fn) / .Run(fn)
-			ex := v.MethodByName("EXPECT")
-			if !ex.IsValid() {
+			// the generated typed expecter API: EXPECT().A(...).RunAndReturn(fn) / .Run(fn).
+			// Several goroutines register their expectation concurrently, and for each of them this is the FIRST
+			// EXPECT() call on the fresh mock: no EXPECT() happens-before the others.
+			if !v.MethodByName("EXPECT").IsValid() {
 				fail(name, "testify", "broken", "mock has no EXPECT method")
 				return
 			}
-			am := ex.Call(nil)[0].MethodByName("A")
-			if !am.IsValid() {
-				fail(name, "testify", "broken", "expecter has no A method")
-				return
+			register := func() {
+				defer func() {
+					if p := recover(); p != nil {
+						fail(name, "testify", "panic", "while registering through EXPECT(): "+fmt.Sprint(p))
+					}
+				}()
+				am := v.MethodByName("EXPECT").Call(nil)[0].MethodByName("A")
+				if !am.IsValid() {
+					fail(name, "testify", "broken", "expecter has no A method")
+					return
+				}
+				av := make([]reflect.Value, len(anys))
+				for i := range av {
+					av[i] = reflect.ValueOf(mock.Anything)
+				}
+				co := am.Call(av)[0]
+				which := "RunAndReturn"
+				if at.NumOut() == 0 {
+					which = "Run"
+				}
+				rm := co.MethodByName(which)
+				if !rm.IsValid() {
+					fail(name, "testify", "broken", "typed call has no "+which)
+					return
+				}
+				rm.Call([]reflect.Value{fn})
+				co.Elem().FieldByName("Call").MethodByName("Maybe").Call(nil)
 			}
-			av := make([]reflect.Value, len(anys))
-			for i := range av {
-				av[i] = reflect.ValueOf(mock.Anything)
+			var ewg sync.WaitGroup
+			var go_ int32
+			for i := 0; i < 4; i++ {
+				ewg.Add(1)
+				go func() {
+					defer ewg.Done()
+					for atomic.LoadInt32(&go_) == 0 {
+					}
+					register()
+				}()
 			}
-			co := am.Call(av)[0]
-			which := "RunAndReturn"
-			if at.NumOut() == 0 {
-				which = "Run"
-			}
-			rm := co.MethodByName(which)
-			if !rm.IsValid() {
-				fail(name, "testify", "broken", "typed call has no "+which)
-				return
-			}
-			rm.Call([]reflect.Value{fn})
-			co.Elem().FieldByName("Call").MethodByName("Maybe").Call(nil)
+			atomic.StoreInt32(&go_, 1)
+			ewg.Wait()
 			stat("testify_expecter_rounds", 1)
+			stat("testify_concurrent_first_expect", 4)
 		}
 		var wg sync.WaitGroup
 		var stop int32
@@ -616,17 +674,35 @@ func testifyStress(name string, mk func(t tT) interface{}, unroll bool, plan *Pl
 						fail(name, "testify", "panic", fmt.Sprint(p))
 					}
 				}()
+				// With unrolled variadics the ELEMENTS are the call's arguments; a caller may spread a buffer it re-uses
+				// (m.A(x, buf...)): the mock must not keep that buffer as its record of the call.
+				reuse := at.IsVariadic() && unroll
+				var buf reflect.Value
+				if reuse {
+					buf = reflect.MakeSlice(at.In(at.NumIn()-1), 2, 2)
+				}
 				for k := 0; k < K; k++ {
 					c := code(g, k)
 					in := make([]reflect.Value, 0, 4)
 					for i := 0; i < at.NumIn(); i++ {
 						if at.IsVariadic() && i == at.NumIn()-1 {
-							in = append(in, encode(at.In(i).Elem(), c), encode(at.In(i).Elem(), c))
+							if reuse {
+								buf.Index(0).Set(encode(at.In(i).Elem(), c))
+								buf.Index(1).Set(encode(at.In(i).Elem(), c))
+								in = append(in, buf)
+							} else {
+								in = append(in, encode(at.In(i).Elem(), c), encode(at.In(i).Elem(), c))
+							}
 						} else {
 							in = append(in, encode(at.In(i), c))
 						}
 					}
-					outv := a.Call(in)
+					var outv []reflect.Value
+					if reuse {
+						outv = a.CallSlice(in)
+					} else {
+						outv = a.Call(in)
+					}
 					var cs []int
 					for _, o := range outv {
 						decode(o, &cs)
